@@ -29,6 +29,7 @@
     #[kani::proof]
     #[kani::unwind(5)]
     #[kani::stub(mixtrics::metrics::Buckets::exponential, vk_buckets_stub)]
+    #[kani::stub(mixtrics::metrics::Buckets::linear, vk_buckets_stub)]
     fn callbacks_run_outside_the_shard_lock() {
         let probe = Arc::new(Probe { inner: OnceLock::new() });
         let pw = probe.clone();
